@@ -294,7 +294,7 @@ def gen_workload(ctx):
     w.max_buf = 1024 * 1024
     w.max_hdr = 8192
     lm = ch.weighted([5, 2, 2, 2], 'limit_mode')
-    delta = ch.draw(3, 'limit_delta') - 1
+    delta = ch.draw(5, 'limit_delta') - 1      # threshold-1 .. threshold+3
     if lm == 1:
         w.limit = 'count'
         w.max_count = max(0, n + delta)
